@@ -795,6 +795,9 @@ static std::string handle(const std::vector<std::string> &toks)
           dispatch([&](auto &&...a) { lg->EmitLogRecord(std::move(rec), std::forward<decltype(a)>(a)...); }, op.args, 0);
         }
       }
+      // an EventId handed to the call is the caller's: it dies as soon as the call has returned (a temporary in the
+      // caller's expression); the record must have copied the id and the name
+      for (auto &a : op.args) a.eid.reset();
     };
     if (op.kind == "scribble")
     {
